@@ -1567,6 +1567,14 @@ Lemma rt_skel_matches :
   rt_wrap_input_skel = expected_rt_wrap_input /\
   rt_wrap_output_skel = expected_rt_wrap_output /\
   rt_reset_to_standby_skel = expected_rt_reset_to_standby /\
+  rt_add_handshake_buffer_skel = expected_rt_add_handshake_buffer /\
+  rt_flush_handshake_buffer_skel = expected_rt_flush_handshake_buffer /\
+  rt_send_string_to_client_skel = expected_rt_send_string_to_client /\
+  rt_send_string_to_server_skel = expected_rt_send_string_to_server /\
+  rt_send_error_skel = expected_rt_send_error /\
+  rt_handshake_skel = expected_rt_handshake /\
+  rt_relay_wrap_input_skel = expected_rt_relay_wrap_input /\
+  rt_relay_wrap_output_skel = expected_rt_relay_wrap_output /\
   rt_sites_bufchan_send = expected_rt_sites_bufchan_send /\
   rt_sites_atomic_writes = expected_rt_sites_atomic_writes /\
   rt_sites_plain_writes = expected_rt_sites_plain_writes /\
